@@ -278,7 +278,14 @@ class QuantizationParameters:
         if not isinstance(other, QuantizationParameters):
             return False
 
-        return self.scale_f32 == other.scale_f32 and self.zero_point == other.zero_point
+        def equal(a, b) -> bool:
+            # scale and zero point are scalars (or None) or, for per-axis quantisation, arrays
+            a, b = np.asarray(a), np.asarray(b)
+            if a.size == 1 and b.size == 1:
+                return bool(a.reshape(()) == b.reshape(()))
+            return a.shape == b.shape and bool(np.all(a == b))
+
+        return equal(self.scale_f32, other.scale_f32) and equal(self.zero_point, other.zero_point)
 
     def is_valid(self) -> bool:
         """Return True if the quantisation parameters have a scale and zero point"""
